@@ -287,4 +287,4 @@ _todo = "machinery for this property is not built yet in this round; planned per
 NOT_APPLICABLE = {("C%02d" % i): _todo for i in range(1, 21)}
 
 # properties whose check exists in PROPS but is not yet claimed in MANIFEST.json (proofs in progress)
-PENDING = {"C03"}
+PENDING = set()
